@@ -87,6 +87,9 @@ def run(prop, tier, replay):
         "samples": [{"res": runs[0]["res"], "ctl": runs[0]["ctl"][:10], "cyc": runs[0]["cyc"][:6]}],
         "exhaustive": False,
     }
+    if not replay:
+        from checks.dbgep import endpoint_stage
+        cov.update(endpoint_stage(rep, tier, work, "production"))
     return rep.finish(cov, assumptions=[
         "cycles are ordered by a sequence taken inside execute_cycle (logging I/O driver), i.e. under the shared-globals lock",
         "OS-chosen schedules perturbed by seeded delays and clock advances; not exhaustive on the code (the model is)",
